@@ -137,6 +137,3 @@ func (fx *FnCtx) mapLen(st *State, m Value) *Term {
 func (fx *FnCtx) mapDelete(st *State, pc *Term, m, k Value, mt types.Type) {
 	fx.fail("maps are not modelled yet")
 }
-
-// tableFacts adds the extracted contents of package-level tables as axioms.
-func (v *Verifier) tableFacts(fx *FnCtx, g *ssa.Global, val Value) {}
